@@ -6,8 +6,10 @@ import Hive.Conc.Sys
 Any number of goroutines, each with an arbitrary script of `Evict(slot)` and `EvictionEvent(slot)`
 calls.  `evict()` (under the write lock) is one step: it advances `lastEvictedSlot`, removes the
 events of the newly evicted slots from the map and hands them to the calling goroutine, which then
-triggers them one step at a time *outside* the lock.  `EvictionEvent` (read lock + the map's own
-mutex) is one step.  State = the sequential model's state `EV`.
+triggers them one step at a time *outside* the lock.  `EvictionEvent` is one step: it holds only the
+read lock of the eviction state, so concurrent `EvictionEvent` calls do overlap in the code, and the
+step is atomic **because `ShrinkingMap.GetOrCreate` is** (write lock, re-check, create) — a hypothesis
+of this model, tied by the skeleton obligation on `GetOrCreate` and the `evictsame` stress scenario.  State = the sequential model's state `EV`.
 -/
 namespace Hive.Derived
 open Hive.Conc
